@@ -113,15 +113,31 @@ def struct_program(rnd, g):
     where = {}
     pos = 0
 
-    def ref(w):
+    # inside a cycle nothing is constant anyway: there a virtual field may also be named through its
+    # structure (Foo.f3), which makes that link of the cycle a type-qualified reference
+    comp = {}
+    for c in sccs(g):
+        for v in c:
+            comp[v] = id(c)
+
+    use_cond = {v: bool(kinds[v] == "virtual" and g[v] and rnd.random() < 0.3) for v in range(n)}
+
+    def value_in_cycle(w):
+        # the VALUE of w (not merely its condition) mentions a member of w's own cycle
+        vd = sorted(g[w])[1:] if use_cond[w] else sorted(g[w])
+        return any(comp.get(u) is not None and comp.get(u) == comp.get(w) for u in vd)
+
+    def ref(w, v=None):
+        if v is not None and kinds[w] == "virtual" and comp.get(v) is not None and comp.get(v) == comp.get(w) and value_in_cycle(w) and rnd.random() < 0.4:
+            return "Foo." + names[w]
         return names[w] + (".q" if kinds[w] == "param-struct" else "")
 
     for v in range(n):
-        deps = [ref(w) for w in sorted(g[v])]
+        deps = [ref(w, v) for w in sorted(g[v])]
         k = kinds[v]
         pos += 2
         if k == "virtual":
-            if deps and rnd.random() < 0.3:
+            if use_cond[v]:
                 lines.append("  if %s == 1:" % deps[0])
                 lines.append("    let %s = %s" % (names[v], sum_expr(deps[1:], 1)))
                 where[v] = "condition+value"
